@@ -36,7 +36,8 @@ def run(chk):
             drift.append((name, "COMMANDS_BY_ID does not map its header to it"))
         toks = v["assignment"].split()
         try:
-            kw = {p.name: W.from_model(p.type, t) for p, t in zip(cls.schema, toks) if t != "n"}
+            sg = v.get("signed") or [None] * len(toks)
+            kw = {p.name: W.from_model(p.type, t, list(s_) if s_ else None) for p, t, s_ in zip(cls.schema, toks, sg) if t != "n"}
             if len(toks) != len(cls.schema):
                 raise ValueError("schema has %d parameters, pinned %d" % (len(cls.schema), len(toks)))
             fr = cls(**kw).to_frame()
